@@ -649,7 +649,8 @@ def _analyse_backend(ctx, fi, sites):
     if not isinstance(R, Poly):
         unrec("%s returns %s" % (q, show(R)))
     p = [Pk(0), Pk(1)]
-    logs = ex.calls("log")
+    # (the logarithm of a literal - a named constant such as LOG_FLOOR = np.log(1e-100) - is not the backend's log)
+    logs = [e for e in ex.calls("log") if not (len(e.args) >= 1 and isinstance(e.args[0], Poly) and e.args[0].is_const())]
     if len(logs) != 1:
         unrec("%s: %d np.log calls" % (q, len(logs)))
     lev = logs[0]
